@@ -16,7 +16,7 @@ from pandapower.diagnostic import Diagnostic, DiagnosticFunction
 from pandapower.diagnostic.diagnostic_functions import default_argument_values, default_diagnostic_functions
 from vf import coqrun as cq, nets
 
-RULE = ("histories of 4-14 operations over 1-4 Diagnostic instances (constructor flag, registrations of probe functions with "
+RULE = ("histories of 4-14 operations over 1-4 Diagnostic instances (300 per quick run) (constructor flag, registrations of probe functions with "
         "None / explicit / unsatisfiable argument lists and clashing names, diagnose calls with option overrides and new options); "
         "non-trivial = at least two instances, a registration and a diagnose call on an instance other than the one registered on, "
         "or two diagnose calls on one instance with different kwargs; real-function histories on 4-7 bus nets with injected faults")
@@ -30,7 +30,17 @@ PRISTINE_FN = list(default_diagnostic_functions)
 KEYS = list(PRISTINE_KW) + ["extra_a", "extra_b", "numba"]
 
 
+_EMPTY_NET = pp.create_empty_network()   # the recorders never touch it
+
+
 def restore_defaults():
+    # containers hanging on the class (not on instances) would carry state from one history into the next
+    for attr in ("_functions", "_report_functions", "kwargs"):
+        v = Diagnostic.__dict__.get(attr)
+        if isinstance(v, list):
+            del v[:]
+        elif isinstance(v, dict):
+            v.clear()
     default_argument_values.clear()
     default_argument_values.update(PRISTINE_KW)
     default_diagnostic_functions[:] = PRISTINE_FN
@@ -117,9 +127,15 @@ def run_history_stub(ops):
         saved.append((f, f.__dict__.get("diagnostic")))
         f.diagnostic = rec
     IN = Intern()
-    objid = {id(f): k for k, (n, f, a) in enumerate(PRISTINE_FN)}   # default function objects: 0..17, probes: 100+
+    class _Ids(dict):
+        """default function objects: 0..17, probes of this history: 100+, anything else (a function object that should
+        not be reachable from the instances of this history): fresh ids 1000+ - the canonical form is total"""
+        def __missing__(self, key):
+            self[key] = 1000 + sum(1 for v in self.values() if v >= 1000)
+            return self[key]
+    objid = _Ids({id(f): k for k, (n, f, a) in enumerate(PRISTINE_FN)})
     try:
-        net = pp.create_empty_network()
+        net = _EMPTY_NET
         insts, probes, events = [], {}, []
         for o in ops:
             if o[0] == "new":
@@ -153,6 +169,22 @@ def run_history_stub(ops):
         def dl(d):
             return sorted([[IN(k), IN(v)] for k, v in d.items()])
 
+        # the spec itself, independent of the model: an instance holds the pristine defaults (if asked for) followed by
+        # exactly the functions registered on it, and the pristine default options
+        spec_bad = []
+        own = {i: [] for i in range(len(insts))}
+        flags = [o[1] for o in ops if o[0] == "new"]
+        for o in ops:
+            if o[0] == "reg":
+                own[o[1]].append(probes[o[2]])
+        for i, d in enumerate(insts):
+            exp = ([f for n, f, a in PRISTINE_FN] if flags[i] else []) + own[i]
+            got = [f for n, f, a in d._functions]
+            if [id(x) for x in exp] != [id(x) for x in got]:
+                spec_bad.append("instance %d holds %d functions, expected its %d own (+defaults): foreign or missing registrations" % (
+                    i, len(got), len(exp)))
+            if dict(d.kwargs) != (PRISTINE_KW if flags[i] else {}):
+                spec_bad.append("instance %d kwargs changed: %r" % (i, {k: v for k, v in d.kwargs.items() if PRISTINE_KW.get(k, None) != v}))
         state = {"default_kw": dl(default_argument_values), "default_fn": fl(default_diagnostic_functions),
                  "insts": [{"kw": dl(d.kwargs), "fn": fl(d._functions), "kw_is_default": d.kwargs is default_argument_values,
                             "fn_is_default": d._functions is default_diagnostic_functions} for d in insts]}
@@ -178,7 +210,7 @@ def run_history_stub(ops):
         term_old = "run_ops_old %s %s %s" % (d0, f0, cq.lst(mops))
         names = {v: k for k, v in IN.ids.items()}
         kinds = {100 + o[2]: o[3] for o in ops if o[0] == "reg"}
-        return {"events": events, "state": state}, term, term_old, names, kinds
+        return {"events": events, "state": state, "spec_bad": spec_bad}, term, term_old, names, kinds
     finally:
         for f, old in saved:
             if old is None:
@@ -352,9 +384,11 @@ def check_histories(ctx, histories, label):
         ctx.count("valueerror_exits", sum(1 for e in o["events"] if e and e["raised"]))
         # the spec itself on the recorded state: defaults untouched, instances own their containers
         st = o["state"]
+        for w in o.pop("spec_bad")[:1]:
+            ctx.violation("spec", w, ops)
         if any(i["kw_is_default"] or i["fn_is_default"] for i in st["insts"]):
             ctx.violation("spec", "an instance shares its kwargs dict / function list with the module-level defaults", ops)
-    model = ctx.coq_eval("c30_" + label, "C30.Model", terms, prelude="Open Scope Z_scope.", shard=80)
+    model = ctx.coq_eval("c30_" + label, "C30.Model", terms, prelude="Open Scope Z_scope.", shard=80, timeout=900)
     for ops, o, m, (names, kinds) in zip(histories, obs, model, aux):
         ctx.corr_checked += 1
         mv = model_view(m, names, kinds)
@@ -368,9 +402,9 @@ def run(ctx):
     import glob, os
     corpus = [json.load(open(p))["case"] for p in sorted(glob.glob(os.path.join(cq.VERIF, "corpus", "C30", "*.json")))]
     corpus = [[tuple(o) for o in c] for c in corpus]
-    hist = corpus + [gen_history(rng, rng.randint(4, 14)) for _ in range(ctx.n(200, 4000))]
+    hist = corpus + [gen_history(rng, rng.randint(4, 14)) for _ in range(ctx.n(300, 4000))]
     check_histories(ctx, hist, "stub")
-    for _ in range(ctx.n(14, 300)):
+    for _ in range(ctx.n(10, 300)):
         real_history(ctx, rng)
 
 
